@@ -247,10 +247,10 @@ func (e *Environment) Get(name string) (Object, bool) {
 		}
 		return nil, false
 	}
-	if e.function != nil && e.function.Name != nil && name == e.function.Name.Literal() {
-		return *e.function, true
-	}
 	obj, ok := e.store[name]
+	if !ok && e.function != nil && e.function.Name != nil && name == e.function.Name.Literal() {
+		return *e.function, true // (a parameter or local of the same name shadows the function)
+	}
 	if ok {
 		// using references to non constant (extensions are constants) implies uncacheable.
 		if r, ok := obj.(Reference); ok && (r.RefEnv.depth != 0 || (!Constant(r.Name) && r.ObjValue().Type() != FUNC)) {
